@@ -32,7 +32,32 @@ def ev_scenarios():
                        "T 1 ev_post 1", "T 1 yield", "T 1 ev_post 1", "R ev 2 0 0 ev_post 1", "R ev 1 0 2 ev_post 2"]
     S["reg-late"] = ["O ev 1", "O ev 2", "O tk 1", "S ev_reg 1", "S tk_reg 1", "S spawn 1", "R tk 1 0 1 ev_reg 2",
                      "T 1 ev_post 1", "T 1 ev_post 2", "T 1 ev_post 1", "R ev 1 0 1 ev_unreg 2", "R ev 1 0 2 ev_reg 2"]
+    # the owner posts A, unregisters A and posts B within one iteration (outside and inside a handler)
+    S["post-unreg-post"] = ["O ev 1", "O ev 2", "S ev_reg 1", "S ev_reg 2", "S spawn 1", "S ev_post 1", "S ev_unreg 1", "S ev_post 2",
+                            "T 1 ev_post 2"]
+    S["post-unreg-post-h"] = ["O ev 1", "O ev 2", "O ev 3", "S ev_reg 1", "S ev_reg 2", "S ev_reg 3", "S spawn 1", "T 1 ev_post 3",
+                              "R ev 3 0 1 ev_post 1", "R ev 3 0 1 ev_unreg 1", "R ev 3 0 1 ev_post 2"]
+    # the owner's event count drops to zero and rises again: the wake-up path is set up afresh
+    S["reg-cycle"] = ["O ev 1", "O ev 2", "S ev_reg 1", "S ev_unreg 1", "S ev_reg 2", "S spawn 1", "T 1 ev_post 2", "T 1 ev_post 2"]
+    # a second owner thread with its own loop, posted to by the main thread
+    S["second-owner"] = ["O ev 1", "O ev 2", "S ev_reg 1", "S spawn 1", "T 1 iv_init", "T 1 ev_reg 2", "T 1 set_flag 2", "T 1 iv_main",
+                         "T 1 iv_deinit", "S wait_flag 2", "S ev_post 2", "R ev 2 0 1 ev_unreg 2"]
     return S
+
+
+# scenarios with a failing registration (C07: "registration calls that report failure leave the loop as it was")
+EV_FAULT_SCEN = {
+    "fail-then-ok": (["O ev 1", "O ev 2", "S spawn 1", "S ev_reg 1", "S ev_reg 2", "T 1 ev_post 2", "T 1 ev_post 2"],
+                     ["F eventfd2 1 EMFILE 0"], ("poll", "ppoll")),
+}
+RAW_FAULT_SCEN = {
+    # a later registration fails for lack of descriptors (every way of making one fails): the objects
+    # registered before keep working
+    "reg-fail": (["O raw 1", "O raw 2", "S raw_reg 1", "S raw_reg 2", "S spawn 1", "S raw_post 1", "T 1 raw_post 1"],
+                 ["F eventfd2 2 EMFILE 0", "F eventfd 1 EMFILE 0", "F pipe 1 EMFILE 0"], ("epoll", "poll")),
+    "reg-fail2": (["O raw 1", "O raw 2", "S raw_reg 1", "S raw_reg 2", "S spawn 1", "S raw_post 1", "T 1 raw_post 1", "T 1 raw_post 2"],
+                  ["F eventfd2 2 EMFILE 0", "F eventfd 1 EMFILE 0"], ("epoll",)),
+}
 
 
 def raw_scenarios():
@@ -48,6 +73,9 @@ def raw_scenarios():
                    "R raw 1 0 1 sigpost 10 1 0", "R raw 2 0 1 childpost 1"]
     S["unreg"] = ["O raw 1", "O raw 2", "S raw_reg 1", "S raw_reg 2", "S spawn 1", "S raw_post 2", "T 1 raw_post 1", "T 1 raw_post 1",
                   "R raw 2 0 1 raw_unreg 1", "R raw 2 0 1 raw_reg 1", "R raw 1 0 1 raw_post 2"]
+    # one thread unregisters (closes descriptors) while another registers (is handed descriptor numbers)
+    S["close-race"] = ["O raw 1", "O raw 2", "S raw_reg 1", "S spawn 1", "T 1 iv_init", "T 1 raw_reg 2", "T 1 set_flag 2", "T 1 iv_main",
+                       "T 1 iv_deinit", "S raw_unreg 1", "S wait_flag 2", "S raw_post 2", "R raw 2 0 1 raw_unreg 2"]
     return S
 
 
@@ -205,6 +233,8 @@ def run(pid, tier, seed, replay=None):
             else:
                 combos = [(n + "-" + mode, b, m, f) for n, b in raw_scenarios().items()
                           for mode, f in RAW_MODES.items() for m in (("epoll", "poll") if tier == "thorough" else ("epoll",))]
+            fs = EV_FAULT_SCEN if pid == "C08" else RAW_FAULT_SCEN
+            combos += [(n, b, m, f) for n, (b, f, ms) in fs.items() for m in ms]
             for name, body, method, faults in combos:
                 s, t, nsched, complete = enumerate_schedules(exe, sc, name, body, method, faults, budget, pid + "e")
                 scripts += s
